@@ -50,7 +50,16 @@ CodeLay(c) ==
 (*   fv = 0 : the ORIGINAL format (no layout annotations)               *)
 (* ------------------------------------------------------------------ *)
 RECURSIVE SEnc(_, _)
-EField(f, fv) == EStr("f") \o SEnc(f, fv) \o (IF fv > 0 THEN EOptUsize(f.off) ELSE <<>>)
+EField(f, fv) == EStr(f.nm) \o SEnc(f, fv) \o (IF fv > 0 THEN EOptUsize(f.off) ELSE <<>>)
+\* a trait definition: name (with "+Sync" / "+Send" appended), then the methods
+PlusSync == <<43, 83, 121, 110, 99>>
+PlusSend == <<43, 83, 101, 110, 100>>
+ETraitName(d) == LET b == NameBytes(d.s) \o (IF d.n % 2 = 1 THEN PlusSync ELSE <<>>) \o (IF d.n >= 2 THEN PlusSend ELSE <<>>)
+                 IN LE(Len(b), 8) \o b
+EMethod(m, fv) == EStr(m.s) \o SEnc(m.ts[1], fv)
+                  \o (IF fv >= 2 THEN <<100 + (m.n % 4), m.n \div 4>> ELSE <<>>)       \* receiver kind, async flag: format 2 only
+                  \o LE(Len(m.ts) - 1, 8) \o Flat([k \in 1..(Len(m.ts) - 1) |-> SEnc(m.ts[k + 1], fv)])
+EDef(d, fv) == ETraitName(d) \o LE(Len(d.ts), 8) \o Flat([i \in 1..Len(d.ts) |-> EMethod(d.ts[i], fv)])
 SEnc(s, fv) ==
     CASE s.k = "struct" ->
             <<1>> \o EStr(s.s) \o LE(Len(s.ts), 8) \o (IF fv > 0 THEN EOptUsize(s.sz) \o EOptUsize(s.al) ELSE <<>>)
@@ -71,6 +80,10 @@ SEnc(s, fv) ==
       [] s.k = "array" -> <<8>> \o LE(s.n, 8) \o SEnc(s.ts[1], fv)
       [] s.k = "custom" -> <<9>> \o EStr(s.s)
       [] s.k = "boxed" -> <<10>> \o SEnc(s.ts[1], fv)
+      [] s.k = "fnclosure" -> <<11, s.n>> \o EDef(s.ts[1], fv)
+      [] s.k = "trait" -> <<15, s.n>> \o EDef(s.ts[1], fv)
+      [] s.k = "future" -> <<18, s.n>> \o EDef(s.ts[1], fv)
+      [] s.k = "uninit" -> <<19>>
       [] s.k = "slice" -> <<12>> \o SEnc(s.ts[1], fv)
       [] s.k = "str" -> <<13>>
       [] s.k = "ref" -> <<14>> \o SEnc(s.ts[1], fv)
@@ -110,7 +123,7 @@ DFields(b, pos, fv, n, acc) ==
               IF ~v.ok THEN [ok |-> FALSE, fs |-> acc, pos |-> pos]
               ELSE LET o == DOpt(b, v.pos, fv) IN
                    IF ~o.ok THEN [ok |-> FALSE, fs |-> acc, pos |-> pos]
-                   ELSE DFields(b, o.pos, fv, n - 1, Append(acc, [v.s EXCEPT !.off = o.x]))
+                   ELSE DFields(b, o.pos, fv, n - 1, Append(acc, [v.s EXCEPT !.off = o.x, !.nm = nm.nm]))
 RECURSIVE DVariants(_, _, _, _, _)
 DVariants(b, pos, fv, n, acc) ==
     IF n = 0 THEN [ok |-> TRUE, vs |-> acc, pos |-> pos]
@@ -120,6 +133,50 @@ DVariants(b, pos, fv, n, acc) ==
                   fs == DFields(b, nm.pos + 9, fv, U64At(b, nm.pos + 1), <<>>) IN
               IF ~fs.ok THEN [ok |-> FALSE, vs |-> acc, pos |-> pos]
               ELSE DVariants(b, fs.pos, fv, n - 1, Append(acc, SVariant(nm.nm, d, fs.fs)))
+
+\* ---- trait definitions -----------------------------------------------------------------------
+SplitPlus(bs) ==
+    LET RECURSIVE Go(_, _, _)
+        Go(i, cur, acc) == IF i > Len(bs) THEN Append(acc, cur)
+                           ELSE IF bs[i] = 43 THEN Go(i + 1, <<>>, Append(acc, cur))
+                           ELSE Go(i + 1, Append(cur, bs[i]), acc)
+    IN Go(1, <<>>, <<>>)
+SyncB == Tail(PlusSync)
+SendB == Tail(PlusSend)
+RECURSIVE DSchemas(_, _, _, _, _)
+DSchemas(b, pos, fv, n, acc) ==
+    IF n = 0 THEN [ok |-> TRUE, ss |-> acc, pos |-> pos]
+    ELSE LET r == SDec(b, pos, fv) IN
+         IF ~r.ok THEN [ok |-> FALSE, ss |-> acc, pos |-> pos] ELSE DSchemas(b, r.pos, fv, n - 1, Append(acc, r.s))
+RECURSIVE DMethods(_, _, _, _, _)
+DMethods(b, pos, fv, n, acc) ==
+    IF n = 0 THEN [ok |-> TRUE, ms |-> acc, pos |-> pos]
+    ELSE LET nm == DStr(b, pos) IN
+         IF ~nm.ok THEN [ok |-> FALSE, ms |-> acc, pos |-> pos]
+         ELSE LET ret == SDec(b, nm.pos, fv) IN
+              IF ~ret.ok THEN [ok |-> FALSE, ms |-> acc, pos |-> pos]
+              ELSE LET p2 == IF fv >= 2 THEN ret.pos + 2 ELSE ret.pos
+                       okrc == fv < 2 \/ (Have(b, ret.pos, 2) /\ b[ret.pos + 1] \in {100, 101, 102})
+                       code == IF fv >= 2 /\ okrc THEN (b[ret.pos + 1] - 100) + 4 * (IF b[ret.pos + 2] = 1 THEN 1 ELSE 0) ELSE 0 IN
+                   IF ~okrc \/ ~Have(b, p2, 8) \/ ~U64Small(b, p2) THEN [ok |-> FALSE, ms |-> acc, pos |-> pos]
+                   ELSE LET as == DSchemas(b, p2 + 8, fv, U64At(b, p2), <<>>) IN
+                        IF ~as.ok THEN [ok |-> FALSE, ms |-> acc, pos |-> pos]
+                        ELSE DMethods(b, as.pos, fv, n - 1, Append(acc, SN("method", nm.nm, code, <<ret.s>> \o as.ss)))
+\* [ok, s, pos]; a name segment after '+' other than Sync / Send is an error
+DDef(b, pos, fv) ==
+    IF ~Have(b, pos, 8) \/ ~U64Small(b, pos) \/ ~Have(b, pos + 8, U64At(b, pos)) THEN SBad(pos)
+    ELSE LET bs == SubSeq(b, pos + 9, pos + 8 + U64At(b, pos))
+             segs == SplitPlus(bs)
+             p1 == pos + 8 + U64At(b, pos) IN
+         IF \E k \in 2..Len(segs) : segs[k] \notin {SyncB, SendB} THEN SBad(pos)
+         ELSE IF ~Have(b, p1, 8) \/ ~U64Small(b, p1) THEN SBad(pos)
+         ELSE LET ms == DMethods(b, p1 + 8, fv, U64At(b, p1), <<>>)
+                  flags == (IF \E k \in 2..Len(segs) : segs[k] = SyncB THEN 1 ELSE 0)
+                           + (IF \E k \in 2..Len(segs) : segs[k] = SendB THEN 2 ELSE 0) IN
+              IF ~ms.ok THEN SBad(pos)
+              ELSE SD(TRUE, SN("traitdef", BytesName(segs[1]), flags, ms.ms), ms.pos)
+WrapDef(kind, flag, b, pos, fv) ==
+    LET r == DDef(b, pos, fv) IN IF ~r.ok THEN SBad(pos) ELSE SD(TRUE, SN(kind, "", flag, <<r.s>>), r.pos)
 
 Wrap1(kind, b, pos, fv) ==
     LET r == SDec(b, pos, fv) IN IF ~r.ok THEN r ELSE SD(TRUE, SN(kind, "", 0, <<r.s>>), r.pos)
@@ -173,6 +230,10 @@ SDec(b, pos, fv) ==
                  IF ~r.ok THEN r ELSE SD(TRUE, SArray(r.s, U64At(b, p)), r.pos)
       [] tag = 9 -> LET nm == DStr(b, p) IN IF ~nm.ok THEN SBad(pos) ELSE SD(TRUE, SN("custom", nm.nm, 0, <<>>), nm.pos)
       [] tag = 10 -> Wrap1("boxed", b, p, fv)
+      [] tag = 11 -> IF ~Have(b, p, 1) THEN SBad(pos) ELSE WrapDef("fnclosure", IF b[p + 1] = 1 THEN 1 ELSE 0, b, p + 1, fv)
+      [] tag = 15 -> IF ~Have(b, p, 1) THEN SBad(pos) ELSE WrapDef("trait", IF b[p + 1] = 1 THEN 1 ELSE 0, b, p + 1, fv)
+      [] tag = 18 -> IF ~Have(b, p, 1) THEN SBad(pos) ELSE WrapDef("future", b[p + 1] % 8, b, p + 1, fv)
+      [] tag = 19 -> SD(TRUE, SN("uninit", "", 0, <<>>), p)
       [] tag = 12 -> Wrap1("slice", b, p, fv)
       [] tag = 13 -> SD(TRUE, SN("str", "", 0, <<>>), p)
       [] tag = 14 -> Wrap1("ref", b, p, fv)
@@ -184,8 +245,12 @@ SDec(b, pos, fv) ==
 \* the schema without memory-layout annotations (what a format-0 section can carry)
 RECURSIVE StripLayout(_)
 StripLayout(s) ==
-    SNL(s.k, s.s, IF s.k = "enum" THEN 1 ELSE s.n, [i \in 1..Len(s.ts) |-> StripLayout(s.ts[i])], -1, -1, -1,
-        IF (s.k = "prim" /\ s.s = "string") \/ s.k = "vector" THEN "Unknown" ELSE "", FALSE)
+    Named(SNL(s.k, s.s, IF s.k = "enum" THEN 1 ELSE IF s.k = "method" THEN 0 ELSE s.n,
+              [i \in 1..Len(s.ts) |-> StripLayout(s.ts[i])], -1, -1, -1,
+              IF (s.k = "prim" /\ s.s = "string") \/ s.k = "vector" THEN "Unknown" ELSE "", FALSE), s.nm)
+\* what formats below 2 can express of a schema: a method's receiver kind and async flag have no encoding there
+RECURSIVE Forget1(_)
+Forget1(s) == [s EXCEPT !.n = IF s.k = "method" THEN 0 ELSE s.n, !.ts = [i \in 1..Len(s.ts) |-> Forget1(s.ts[i])]]
 
 (* ------------------------------------------------------------------ *)
 (* Universe of schema trees                                            *)
@@ -199,10 +264,10 @@ LeafQ == {SPrim("u8"), SPrim("i8"), SPrim("u32"), SPrim("bool"), SZero, SN("str"
 LeafS == {SPrim("u8"), SPrim("u32"), WithLay(SPrim("string"), "Unknown")}    \* small leaf set for nesting
 Offs == {-1, 0, 4}
 SzAl == {<<-1, -1>>, <<4, 4>>, <<8, 4>>}
-FieldsOf(LL) == {<<>>} \cup {<<WithOff(a, o)>> : a \in LL, o \in Offs}
-               \cup {<<WithOff(a, o1), WithOff(b, o2)>> : a \in LL, b \in LL, o1 \in {-1, 0}, o2 \in {-1, 4}}
+FieldsOf(LL) == {<<>>} \cup {<<Named(WithOff(a, o), "f")>> : a \in LL, o \in Offs}
+               \cup {<<Named(WithOff(a, o1), "f"), Named(WithOff(b, o2), "g")>> : a \in LL, b \in LL, o1 \in {-1, 0}, o2 \in {-1, 4}}
 Structs(LL) == {SNL("struct", nm, 0, fs, sa[1], sa[2], -1, "", FALSE) : nm \in {"S", "T"}, fs \in FieldsOf(LL), sa \in SzAl}
-VariantsOf(LL) == {SVariant(nm, d, fs) : nm \in {"A", "B"}, d \in {0, 1}, fs \in {<<>>} \cup {<<WithOff(a, o)>> : a \in LL, o \in {-1, 1}}}
+VariantsOf(LL) == {SVariant(nm, d, fs) : nm \in {"A", "B"}, d \in {0, 1}, fs \in {<<>>} \cup {<<Named(WithOff(a, o), "f")>> : a \in LL, o \in {-1, 1}}}
 Enums(LL) == {SNL("enum", "S", w, vs, sa[1], sa[2], -1, "", er) :
                 w \in {1, 2}, er \in BOOLEAN, sa \in {<<-1, -1>>, <<4, 4>>},
                 vs \in {<<a>> : a \in VariantsOf(LL)} \cup {<<a, b>> : a \in VariantsOf(LL), b \in VariantsOf(LL)}}
@@ -210,10 +275,24 @@ Wrappers(S) == {WithLay(SVector(e), l) : e \in S, l \in Lays} \cup {SOption(e) :
                \cup {SN(k, "", 0, <<e>>) : k \in {"boxed", "slice", "ref"}, e \in S}
 Depth1 == Wrappers(LeafQ) \cup Structs(LeafS) \cup Enums({SPrim("u8")})
 SmallD1 == {WithLay(SVector(SPrim("u8")), "Unknown"), SOption(SPrim("u32")),
-            SNL("struct", "S", 0, <<WithOff(SPrim("u8"), 0), WithOff(SPrim("u32"), 4)>>, 8, 4, -1, "", FALSE),
-            SNL("enum", "S", 1, <<SVariant("A", 0, <<>>), SVariant("B", 1, <<WithOff(SPrim("u8"), 1)>>)>>, 2, 1, -1, "", TRUE)}
+            SNL("struct", "S", 0, <<Named(WithOff(SPrim("u8"), 0), "f"), Named(WithOff(SPrim("u32"), 4), "g")>>, 8, 4, -1, "", FALSE),
+            SNL("enum", "S", 1, <<SVariant("A", 0, <<>>), SVariant("B", 1, <<Named(WithOff(SPrim("u8"), 1), "f")>>)>>, 2, 1, -1, "", TRUE)}
 Depth2 == Wrappers(SmallD1) \cup Structs(SmallD1 \cup {SPrim("u8")})
-Universe == LeafQ \cup Depth1 \cup (IF Tier = "thorough" THEN Depth2 \cup Enums(LeafS) ELSE Wrappers(SmallD1))
+\* the nodes savefile-abi adds: trait objects, closures, futures
+Methods == {SN("method", nm, rc + 4 * asy, <<ret>> \o as) :
+              nm \in {"f", "g"}, rc \in {0, 1, 2}, asy \in {0, 1}, ret \in {SPrim("u8"), SZero},
+              as \in {<<>>, <<SPrim("u32")>>, <<WithLay(SPrim("string"), "Unknown"), SPrim("u8")>>}}
+MethodsS == {m \in Methods : m.n \in {0, 5} /\ m.ts[1] = SPrim("u8") /\ Len(m.ts) <= 2}
+TraitDefs == {SN("traitdef", "T", fl, ms) : fl \in {0, 3}, ms \in {<<>>} \cup {<<m>> : m \in Methods}}
+             \cup {SN("traitdef", "S", fl, <<p[1], p[2]>>) : fl \in {1, 2}, p \in {q \in MethodsS \X MethodsS : q[1].s # q[2].s}}   \* (method names are unique within a trait)
+AbiNodes == {SN("trait", "", f, <<d>>) : f \in {0, 1}, d \in TraitDefs}
+            \cup {SN("fnclosure", "", f, <<d>>) : f \in {0, 1}, d \in TraitDefs}
+            \cup {SN("future", "", f, <<d>>) : f \in {0, 5, 7}, d \in TraitDefs}
+            \cup {SN("uninit", "", 0, <<>>)}
+AbiSmall == {SN("trait", "", 1, <<SN("traitdef", "T", 3, <<SN("method", "f", 5, <<SPrim("u8"), SPrim("u32")>>)>>)>>),
+             SN("fnclosure", "", 0, <<SN("traitdef", "T", 0, <<SN("method", "g", 1, <<SZero>>)>>)>>)}
+Universe == LeafQ \cup Depth1 \cup AbiNodes \cup {SN("boxed", "", 0, <<e>>) : e \in AbiSmall}
+            \cup (IF Tier = "thorough" THEN Depth2 \cup Enums(LeafS) ELSE Wrappers(SmallD1))
 
 (* ------------------------------------------------------------------ *)
 (* Single mutations that alter the wire layout                         *)
@@ -247,9 +326,11 @@ RECURSIVE LayMutants(_)
 LayMutants(x) ==
     (CASE x.k = "struct" -> {[x EXCEPT !.sz = IF x.sz < 0 THEN 4 ELSE -1], [x EXCEPT !.sz = x.sz + 4], [x EXCEPT !.al = IF x.al < 0 THEN 4 ELSE x.al * 2]}
                             \cup (IF Len(x.ts) >= 1 THEN {[x EXCEPT !.ts[1].off = IF x.ts[1].off < 0 THEN 0 ELSE x.ts[1].off + 4],
-                                                          [x EXCEPT !.ts[1].off = -1]} ELSE {})
+                                                          [x EXCEPT !.ts[1].off = -1],
+                                                          [x EXCEPT !.ts[1].nm = IF x.ts[1].nm = "f" THEN "g" ELSE "f"]} ELSE {})
        [] x.k = "enum" -> {[x EXCEPT !.er = ~x.er], [x EXCEPT !.sz = IF x.sz < 0 THEN 4 ELSE x.sz + 4], [x EXCEPT !.al = IF x.al < 0 THEN 4 ELSE -1]}
-                          \cup (IF Len(x.ts[1].ts) >= 1 THEN {[x EXCEPT !.ts[1].ts[1].off = IF x.ts[1].ts[1].off < 0 THEN 1 ELSE -1]} ELSE {})
+                          \cup (IF Len(x.ts[1].ts) >= 1 THEN {[x EXCEPT !.ts[1].ts[1].off = IF x.ts[1].ts[1].off < 0 THEN 1 ELSE -1],
+                                                                [x EXCEPT !.ts[1].ts[1].nm = "g"]} ELSE {})
        [] x.k = "vector" -> {[x EXCEPT !.lay = IF x.lay = "Unknown" THEN "LengthCapacityData" ELSE "Unknown"], [x EXCEPT !.lay = "DataLengthCapacity"]}
        [] x.k = "prim" /\ x.s = "string" -> {[x EXCEPT !.lay = IF x.lay = "Unknown" THEN "LengthCapacityData" ELSE "Unknown"], [x EXCEPT !.lay = "DataLengthCapacity"]}
        [] OTHER -> {})
@@ -266,13 +347,17 @@ Checked == phase = "picked" /\ phase' = "checked" /\ s' = s
 Spec == Init /\ [][Checked]_vars
 
 RoundTrip(fv) == LET r == SDec(SEnc(s, fv), 0, fv) IN r.ok /\ r.pos = Len(SEnc(s, fv)) /\ r.s = s
-\* C13
-Persist12   == RoundTrip(1) /\ RoundTrip(2)
+\* C13.  Format 1 has no place for a method's receiver kind and async flag: what survives there is Forget1(s)
+\* (equal to s for every schema without such methods); the replay compares the real result with s itself.
+RoundTrip1  == LET r == SDec(SEnc(s, 1), 0, 1) IN r.ok /\ r.pos = Len(SEnc(s, 1)) /\ r.s = Forget1(s)
+Persist12   == RoundTrip1 /\ RoundTrip(2)
 Persist0    == LET b == SEnc(s, 0)  r == SDec(b, 0, 0) IN r.ok /\ r.pos = Len(b) /\ r.s = StripLayout(s)
 \* "undefined" is the one schema that the comparison rejects even against itself (it stands for "no schema")
 RECURSIVE HasUndefined(_)
 HasUndefined(x) == x.k = "undefined" \/ \E i \in 1..Len(x.ts) : HasUndefined(x.ts[i])
-Reflexive   == HasUndefined(s) \/ ~Diff(s, s)
+RECURSIVE HasFuture(_)
+HasFuture(x) == x.k = "future" \/ \E i \in 1..Len(x.ts) : HasFuture(x.ts[i])
+Reflexive   == HasUndefined(s) \/ HasFuture(s) \/ ~Diff(s, s)
 Complete    == \A m \in WireMutants(s) : Diff(s, m) /\ Diff(m, s)
 \* layout annotations are not part of the wire layout: changing one is never reported
 LayoutBlind == \A m \in LayMutants(s) : Diff(s, m) = Diff(s, s)
@@ -297,7 +382,8 @@ PairRec(m, kind) == [m |-> m, kind |-> kind, diff |-> Diff(s, m), rdiff |-> Diff
                      lc |-> LayoutCompat(s, m), sl |-> SameLayout(s, m)]
 Export == phase = "checked" =>
     PrintT(ToJson([s |-> s, e1 |-> SEnc(s, 1), e2 |-> SEnc(s, 2), e0 |-> SEnc(s, 0), strip |-> StripLayout(s),
-                   pairs |-> <<PairRec(s, "self")>>
+                   f1 |-> Forget1(s),
+                   pairs |-> IF HasFuture(s) THEN <<>> ELSE <<PairRec(s, "self")>>
                              \o [i \in 1..Cardinality(WireMutants(s)) |-> PairRec(SetToSeq(WireMutants(s))[i], "wire")]
                              \o [i \in 1..Cardinality(LayMutants(s)) |-> PairRec(SetToSeq(LayMutants(s))[i], "layout")]]))
 =============================================================================
